@@ -241,7 +241,7 @@ func c11CallSites(r *Report, p *Prog, arch string, contracts map[string]*xContra
 				site := fmt.Sprintf("[%s] %s -> %s", arch, p.FuncName(fn), cal.Name())
 				// one named exclusion (DESIGN 3/C11): the sliding-window tail of the arm64 Go glue selects its windows by bit tests
 				// (blocks&8, &4, &2, &1) whose effect on the remaining length needs a bit-level, path-sensitive domain
-				if arch == "arm64" && p.FuncName(fn) == "sm4.(*sm4GcmAsm).cryptoBlocks" && strings.HasPrefix(cal.Name(), "xor") && cal.Name() != "xor256" {
+				if arch == "arm64" && fn == p.Func("sm4.(*sm4GcmAsm).cryptoBlocks") && strings.HasPrefix(cal.Name(), "xor") && cal.Name() != "xor256" {
 					r.Count("callsites_not_decided_"+arch, 1)
 					r.Note("NOT DECIDED: %s at %s — window selected by a bit test of the block count; the 1-byte guarantee of &out[0]/&in[0] is not extended to the window size by this analysis", site, p.InstrPos(call))
 					continue
